@@ -116,6 +116,9 @@ type gateEvent struct {
 }
 
 func (g *gate) wait(op, key string) {
+	if g.arrive == nil { // an unscheduled observer
+		return
+	}
 	g.arrive <- gateEvent{g.id, op, key}
 	<-g.permit
 }
